@@ -92,7 +92,7 @@ def main():
               "baseline_off_cmd":"cd /repo && cargo nextest run --workspace --no-fail-fast --tool-config-file pb:/w/lib/nextest.toml --profile pb --test-threads 8 --offline",
               "source_commits":hooks,"add_only":True},
      "engines":engines,"checks":checks,
-     "notes":"Model-checking family: every deciding step is a complete enumeration of a stated finite space of executions of the real engeom code (inputs up to a size bound, operation histories up to a depth, environment answers up to a deviation bound). engeom has no threads, so interleaving explorers are not applicable; see DESIGN.md section 1.",
+     "notes":"Model-checking family: every deciding step is a complete enumeration of a stated finite space of executions of the real engeom code (inputs up to a size bound, operation histories up to a depth, environment answers up to a deviation bound). engeom has no threads, so interleaving explorers are not applicable; see DESIGN.md section 1. Safety nets that can turn into a verdict: a default budget of 2 M loop iterations per swept item (library loops and the one recursive routine carry cfg-gated ticks, hooks H3/H5/H6), library-located panics outside any clause, and a 300 s wall-clock allowance per swept item; each is reported as a VIOLATION of the clause \"library call returns / terminates\" for the item in progress, none fires on the unchanged tree.",
      "not_applicable":[{"property_id":f"C{i:02d}","reason":NOT_YET} for i in range(1,21) if f"C{i:02d}" not in ENTRIES]}
     json.dump(m,open('/verif/MANIFEST.json','w'),indent=1)
     import jsonschema
